@@ -198,3 +198,37 @@ theorem hash_of_equal_obj (r1 r2 : Bool) (l1 l2 : VList) (n1 n2 : NList)
           simp only [hab, hash2_of_equal _ _ hel.2.1]
 
 end Gsu.Val
+
+namespace Gsu.Num
+open Gsu.Dnum
+
+theorem compare_eq_dnum_small (a b : Num)
+    (ha : ∀ n, asInt a = some n → n.natAbs < 10 ^ 16) (hb : ∀ n, asInt b = some n → n.natAbs < 10 ^ 16) :
+    compare a b = Dnum.compare (toDnum a) (toDnum b) := by
+  cases hai : asInt a with
+  | none => exact compare_dnum a b (Or.inl hai)
+  | some x =>
+    cases hbi : asInt b with
+    | none => exact compare_dnum a b (Or.inr hbi)
+    | some y =>
+      rw [compare_ints a b x y hai hbi, toDnum_of_asInt a x hai, toDnum_of_asInt b y hbi]
+      exact (compare_fromInt x y (ha x hai) (hb y hbi)).symm
+
+theorem compare_trans_small (a b c : Num)
+    (ha : ∀ n, asInt a = some n → n.natAbs < 10 ^ 16) (hb : ∀ n, asInt b = some n → n.natAbs < 10 ^ 16)
+    (hc : ∀ n, asInt c = some n → n.natAbs < 10 ^ 16)
+    (h1 : compare a b ≤ 0) (h2 : compare b c ≤ 0) : compare a c ≤ 0 := by
+  rw [compare_eq_dnum_small a b ha hb] at h1
+  rw [compare_eq_dnum_small b c hb hc] at h2
+  rw [compare_eq_dnum_small a c ha hc]
+  exact Dnum.compare_trans _ _ _ h1 h2
+
+theorem compare_of_equal_same_kind (a b : Num) (hk : (asInt a).isSome = (asInt b).isSome)
+    (h : equal a b = true) : compare a b = 0 := by
+  cases a <;> cases b <;> simp only [asInt, Option.isSome, Bool.true_eq_false, Bool.false_eq_true] at hk <;>
+    simp only [equal, asInt, beq_iff_eq, Option.some.injEq] at h
+  all_goals first
+    | (subst h; simp [compare, asInt, cmpInt])
+    | (have := (Dnum.equal_iff _ _).1 h; subst this; simp [compare, asInt, toDnum, Dnum.compare_self])
+
+end Gsu.Num
